@@ -404,11 +404,9 @@ theorem SyncInv.parkEarly {s : Server} (h : SyncInv s) (i : Nat) (hi : i < s.obj
     · exact (h.pendFree p hp).2 hm
     · exact hfree.2.2 p hp (List.mem_singleton.mp hm)
 
-/-- a parked handler runs on: it leaves the lists -/
-theorem SyncInv.unpark {s : Server} (h : SyncInv s) (f g : Nat → Bool) :
-    SyncInv { s with parked := s.parked.filter f, parkedEarly := s.parkedEarly.filter g } := by
-  have m1 : ∀ k, k ∈ s.parked.filter f → k ∈ s.parked := fun k hk => (List.mem_filter.mp hk).1
-  have m2 : ∀ k, k ∈ s.parkedEarly.filter g → k ∈ s.parkedEarly := fun k hk => (List.mem_filter.mp hk).1
+/-- parked handlers run on: they leave the lists -/
+theorem SyncInv.unpark {s : Server} (h : SyncInv s) (P E : List Nat) (m1 : ∀ k, k ∈ P → k ∈ s.parked)
+    (m2 : ∀ k, k ∈ E → k ∈ s.parkedEarly) : SyncInv { s with parked := P, parkedEarly := E } := by
   refine ⟨h.idx, h.own, h.key, h.os, h.ts, ?_, h.regTO, ?_, ?_, ?_, ?_, h.st1, h.pendNodup, h.pendConn⟩
   · intro k hk ha ht hx hs1
     refine h.reg k hk ?_ ht hx hs1
@@ -426,6 +424,20 @@ theorem SyncInv.unpark {s : Server} (h : SyncInv s) (f g : Nat → Bool) :
     exact h.parkedStopped k (m1 k hk)
   · intro p hp
     exact ⟨fun hm => (h.pendFree p hp).1 (m1 _ hm), fun hm => (h.pendFree p hp).2 (m2 _ hm)⟩
+
+theorem eq_of_nodup_map {α β} (f : α → β) (l : List α) (h : (l.map f).Nodup) (a b : α) (ha : a ∈ l) (hb : b ∈ l)
+    (hab : f a = f b) : a = b := by
+  induction l with
+  | nil => cases ha
+  | cons x xs ih =>
+    rw [List.map_cons, List.nodup_cons] at h
+    rcases List.mem_cons.mp ha with ha' | ha' <;> rcases List.mem_cons.mp hb with hb' | hb'
+    · rw [ha', hb']
+    · subst ha'
+      exact absurd (List.mem_map.mpr (⟨b, hb', hab.symm⟩ : ∃ y, y ∈ xs ∧ f y = f a)) h.1
+    · subst hb'
+      exact absurd (List.mem_map.mpr (⟨a, ha', hab⟩ : ∃ y, y ∈ xs ∧ f y = f b)) h.1
+    · exact ih h.2 ha' hb'
 
 /-- a handler is parked inside `attachClient` -/
 theorem SyncInvX.addPending {X : Nat → Prop} {s : Server} (h : SyncInvX X s) (p : Pending)
@@ -490,5 +502,157 @@ theorem SyncInv.filterPending {s : Server} (h : SyncInv s) (p : Pending) (hp : p
     show k = p.obj
     rw [← b]; exact e3
   · exact hs1 ⟨q, List.mem_filter.mpr ⟨hq, by simpa using hqc⟩, a, b⟩
+
+/-! ### `connectHold`, `connectRelease` -/
+
+theorem connectHold_inv {s : Server} (h : SyncInv s) (hw : WF s) (conn : Nat) (k : Connect) (stage : Nat)
+    (hf : conn ∉ s.connOf.map (·.1)) : SyncInv (connectHold s conn k stage).1 := by
+  unfold connectHold
+  extract_lets +onlyGivenNames c i s1 dec
+  have w1 : WF s1 := hw.addObj c conn (parseConnect_wf s conn k) hf
+  have h1 : SyncInvX (· = i) s1 := h.addObj hw c conn rfl rfl rfl rfl
+  have hi : i < s1.objs.length := by
+    show s.objs.length < (s.objs ++ [c]).length
+    simp
+  have hci : getObj s1 i = c := getObj_append_eq (s := s) (s' := s1) (c := c) rfl
+  have hid : (getObj s1 i).id = k.id := by rw [hci]; rfl
+  have hto : (getObj s1 i).takenOver = false := by rw [hci]; rfl
+  have hnpk : i ∉ s1.parked := fun hm => Nat.lt_irrefl _ (h.parkedLt i (Or.inl hm))
+  have hnpe : i ∉ s1.parkedEarly := fun hm => Nat.lt_irrefl _ (h.parkedLt i (Or.inr hm))
+  have hunreg : ∀ cid, assocGet s1.clients cid ≠ some i := by
+    intro cid hc
+    exact Nat.lt_irrefl _ (hw.clients_valid cid i (assocGet_mem _ _ _ hc)).1
+  have hpi : ∀ p ∈ s1.pending, p.obj ≠ i := by
+    intro p hp e
+    have := (hw.pending_valid p hp).1
+    rw [e] at this
+    exact Nat.lt_irrefl _ this
+  have hnew : i ∉ s1.pending.map (·.obj) := by
+    intro hm
+    obtain ⟨p, hp, e⟩ := List.mem_map.mp hm
+    exact hpi p hp e
+  have hconn : assocGet s1.connOf conn = some i := assocGet_append_fresh _ _ _ hf
+  -- parking in the authentication hook
+  have park1 : ∀ p : Pending, p.stage = 1 → p.obj = i → p.conn = conn →
+      SyncInv { s1 with pending := s1.pending ++ [p] } := by
+    intro p hp1 hpo hpc
+    refine h1.addPending p (fun k' hk' => ⟨hp1, ?_⟩) ?_ ?_ ?_ ?_ ?_
+    · have hk' : k' = i := hk'
+      rw [hk', hpo]
+    · rw [hpo]; exact hnew
+    · rw [hpo]; exact hnpk
+    · rw [hpo]; exact hnpe
+    · rw [hpo, hpc]; exact hconn
+    · intro _; rw [hpo]; exact ⟨hunreg, hto⟩
+  -- refused at once
+  have refuse : SyncInv (stopClient s1 i).1 := by
+    have q2 := stopClient_quiet s1 i
+    have hst := stopClient_stopped s1 i hi
+    refine (h1.of_quiet q2).weaken ?_
+    intro k' _ hx _ ha _ _
+    have hx : k' = i := hx
+    subst hx
+    rcases ha with ha | ha | ha
+    · rw [hst] at ha; cases ha
+    · rw [q2.parked] at ha; exact absurd ha hnpk
+    · rw [q2.parkedEarly] at ha; exact absurd ha hnpe
+  generalize dec = d
+  cases d with
+  | some code =>
+    refine ite_fst_prop (P := SyncInv) _ _ _ ?_ ?_
+    · exact park1 _ rfl rfl rfl
+    · extract_lets +onlyGivenNames o
+      split
+      rename_i s2 o2 h2
+      rw [h2] at refuse
+      exact refuse
+  | none =>
+    refine ite_fst_prop (P := SyncInv) _ _ _ ?_ ?_
+    · exact park1 _ rfl rfl rfl
+    · split
+      rename_i s2 o1 present exLive hA
+      obtain ⟨a2, l2, t2⟩ := admitA_inv (k := k) h1 w1 hi hid hunreg hpi hto
+      have hex := admitA_exLive s1 i k
+      have k2 := admitA_keep s1 i k
+      have w2 := admitA_wf s1 i k w1 hi hid
+      rw [hA] at a2 l2 t2 hex k2 w2
+      replace a2 : SyncInv s2 := a2
+      replace l2 : Lst s1 s2 := l2
+      replace k2 : Keep s1 s2 := k2
+      replace w2 : WF s2 := w2
+      split
+      rename_i s3 o4 h3
+      have r3 : SyncInv s3 ∧ Lst s2 s3 ∧ Good s2 s3 := by
+        split at h3
+        · rename_i e
+          obtain ⟨e1, e2, e3, e4⟩ := hex e rfl
+          have he_lt : e < s1.objs.length := (w1.clients_valid k.id e (assocGet_mem _ _ _ e1)).1
+          have hnp : e ∉ s1.parked := fun hm => by rw [h1.parkedStopped e hm] at e2; cases e2
+          have := detach_inv a2 w2 e (by rw [k2.len]; exact he_lt) true (fun x => by cases x)
+            (by rw [l2.parked]; exact hnp) (by rw [l2.parkedEarly]; exact e3) (Or.inl (t2 e e1))
+          have hl := detach_lst s2 e true
+          have hg := detach_good s2 e true
+          rw [h3] at this hl hg
+          exact ⟨this, hl, hg⟩
+        · cases h3
+          exact ⟨a2, Lst.refl _, Good.refl _⟩
+      obtain ⟨a3, l3, g3⟩ := r3
+      refine SyncInvX.addPending a3 _ (fun _ x => absurd x (fun y => y)) ?_ ?_ ?_ ?_ (fun x => by cases x)
+      · show i ∉ s3.pending.map (·.obj)
+        rw [g3.pending, k2.pending]; exact hnew
+      · show i ∉ s3.parked
+        rw [l3.parked, l2.parked]; exact hnpk
+      · show i ∉ s3.parkedEarly
+        rw [l3.parkedEarly, l2.parkedEarly]; exact hnpe
+      · show assocGet s3.connOf conn = some i
+        rw [g3.connOf, k2.connOf]; exact hconn
+
+theorem connectRelease_inv {s : Server} (p : Pending) (h : SyncInvX (· = p.obj) s) (hw : WF s)
+    (hi : p.obj < s.objs.length) (hid : (getObj s p.obj).id = p.k.id)
+    (hnpk : p.obj ∉ s.parked) (hnpe : p.obj ∉ s.parkedEarly)
+    (hpi : ∀ q ∈ s.pending, q.obj ≠ p.obj)
+    (h1 : p.stage = 1 → (∀ c, assocGet s.clients c ≠ some p.obj) ∧ (getObj s p.obj).takenOver = false)
+    (h2 : p.stage ≠ 1 → SyncInv s) :
+    SyncInv (connectRelease s p).1 ∧ Lst s (connectRelease s p).1 := by
+  unfold connectRelease
+  split
+  · rename_i hs1
+    have hs1 : p.stage = 1 := by simpa using hs1
+    obtain ⟨hunreg, hto⟩ := h1 hs1
+    split
+    · split
+      rename_i s2 o2 hst2
+      have q2 : Quiet s s2 := by
+        have := stopClient_quiet s p.obj
+        rw [hst2] at this; exact this
+      have hst : (getObj s2 p.obj).stopped = true := by
+        have := stopClient_stopped s p.obj hi
+        rw [hst2] at this; exact this
+      refine ⟨(h.of_quiet q2).weaken ?_, q2.lst⟩
+      intro k' _ hx _ ha _ _
+      have hx : k' = p.obj := hx
+      subst hx
+      rcases ha with ha | ha | ha
+      · rw [hst] at ha; cases ha
+      · rw [q2.parked] at ha; exact absurd ha hnpk
+      · rw [q2.parkedEarly] at ha; exact absurd ha hnpe
+    · exact admitClient_inv h hw hi hid hunreg hpi hto
+  · rename_i hs1
+    have hs1 : p.stage ≠ 1 := by simpa using hs1
+    have a := h2 hs1
+    split
+    · have q : Quiet s { s with info := { s.info with connected := s.info.connected - 1 } } := (Quiet.refl s).upd8
+      exact ⟨a.of_quiet q, q.lst⟩
+    · split
+      rename_i s2 o2 hc2
+      have q2 : Quiet s s2 := by
+        have := admitConnack_quiet s p.obj p.conn p.present
+        rw [hc2] at this; exact this
+      split
+      rename_i s3 o3 hc3
+      have q3 : Quiet s2 s3 := by
+        have := admitC_quiet s2 p.obj p.k p.present
+        rw [hc3] at this; exact this
+      exact ⟨a.of_quiet (q2.trans q3), (q2.trans q3).lst⟩
 
 end Mochi.Broker
